@@ -30,6 +30,21 @@ CHECKS.update({
          "Unspecified regions (<< that does not fit, exponents outside 0..2^32-1, negative factorial) are only compared across the two profiles.", "4/C06"),
 })
 
+CHECKS.update({
+ "C12": ("metamorphic rewrite A R -> (A*(R)) of the reference parse + exact reference evaluation + exhaustive rejection block; bounded-exhaustive short forms + random trees (proptest)",
+         "Exploration: every combination of left context, A kind, B kind, suffix and right context is enumerated per evaluator; random trees put juxtaposition nodes in every context; every way a constant, @, superscript, deg or rad could start or continue a product is required to be rejected.",
+         "Trusts the reference grammar's J production (written from C12's text); literal-literal adjacency is a DontCare region and never generated.", "4/C12"),
+ "C13": ("metamorphic pairs (S, S') with identical placeholder: whitespace (exhaustive position x character on short inputs, random beyond), token-level alias swaps, tree/token-level respellings (proptest)",
+         "Exploration: each of the 25 White_Space characters is inserted at every position of a fixed input list; random well-formed, mutated and raw inputs get random whitespace; alias swaps and the seven respellings are applied at random sites; outcomes must be identical bit for bit.",
+         "No oracle needed; the superscript and prefix-+ rewrites are applied only under the side conditions C13 states, decided on the reference lexer's token stream.", "4/C13"),
+ "C14": ("identity on the whole placeholder pool (exhaustive), metamorphic substitution by a verified literal, independence, and exact reference evaluation with @ bound (proptest)",
+         "Exploration: @, (@), +@ must return every pool placeholder identically (NaN payload, -0.0, variant, scale); random expressions are compared with their literal-substituted form and with reference evaluation.",
+         "A placeholder without an exact literal spelling (NaN payloads other than the default NaN, extreme subnormals) is only covered by identity and reference evaluation.", "4/C14"),
+ "C20": ("metamorphic three-call composition check eval(C[(E)],q) == eval(C, eval(E,q)) on random (context, subexpression) pairs (proptest)",
+         "Exploration: random one-hole contexts (hole at a random leaf) x random subexpressions over boundary operands, all five evaluators; no oracle beyond the public API.",
+         "Contexts are restricted to well-formed expressions with exactly one @ (so the hole is never next to a juxtaposition trigger).", "4/C20"),
+})
+
 NOT_YET = {
 }
 
